@@ -218,7 +218,7 @@ func (s *scopeGen) stmts(ind, depth, n int, declared map[string]bool) {
 			s.print(ind + 1)
 			if s.r.chance(60) {
 				if tagged {
-					s.line(ind, "case 2:")
+					s.line(ind, "case 2, -1, -2:")
 				} else {
 					s.line(ind, "case %s < %d:", pick(s.r, scopeNames), s.r.intn(100))
 				}
